@@ -54,7 +54,10 @@ def number(forest, counter=None, names=None):
         else:
             counter[0] += 1
             i = counter[0]
-            out.append({"id": i, "choice": it[0] == "choice", "kids": number(it[1], counter, names)})
+            node = {"id": i, "choice": it[0] == "choice", "kids": number(it[1], counter, names)}
+            if it[0] == "all":
+                node["kind"] = "all"          # (a container that is no choice, like a sequence)
+            out.append(node)
     return out
 
 
@@ -287,8 +290,17 @@ def client_checks(ctx):
         for f in forests(n, 2, allow_empty=False):
             pool.append(f)
     picks = rng.sample(pool, min(len(pool), ctx.pick(25, 300)))
-    for f in picks:
+    def with_alls(forest):
+        # some of the sequence containers written as xsd:all (suds reads an all group wherever it stands)
+        return [it if it[0] == "leaf" else (("all" if it[0] == "seq" and rng.random() < 0.4 else it[0]), with_alls(it[1]))
+                for it in forest]
+    L, O = ("leaf", False), ("leaf", True)
+    fixed = [[("choice", [("all", [L, L]), L])], [("choice", [("all", [L, O, L]), ("seq", [L, L])]), L],
+             [("all", [("choice", [L, L]), L, O])], [L, ("choice", [O, ("all", [L, L])])]]
+    for f in fixed + picks:
         top_kind = rng.choice(["sequence", "all"]) if all(it[0] == "leaf" for it in f) else "sequence"
+        if f not in fixed:
+            f = with_alls(f)
         jf = number(f)
         inner = schema_of(jf)
         # (the wrapper type may carry an XML attribute: not a parameter, but a key `_id` of a dict / factory object)
@@ -473,6 +485,34 @@ def client_checks(ctx):
                 if not same_request(env3, real[1]):
                     ctx.fail("dict with unwrap=False sends a different request", inp,
                              env3.decode("utf-8"), real[1].decode("utf-8"))
+                # ... a dict that leaves the undefined members out, keys in any order
+                part = [(nme, v) for nme, v in items if v is not None]
+                env3p = wsdlkit.envelope_bytes(c_raw.service.f(dict(part)))
+                # (what stands for a member left undefined - nothing, or an empty element where it is required - is not
+                # compared here: the defined members must come with their values, in schema order)
+                def defined_members(env_):
+                    fr_ = xmlread.find1(xmlread.find1(xmlread.parse(env_), "Body"), "f")
+                    keep_ = set(k_ for k_, _v in part)
+                    return [(c_["name"], c_["text"]) for c_ in fr_["children"] if c_["name"][1] in keep_]
+                if defined_members(env3p) != defined_members(real[1]):
+                    ctx.fail("dict with unwrap=False sends a different request", dict(inp, keys=[k_ for k_, _ in part]),
+                             env3p.decode("utf-8"), real[1].decode("utf-8"))
+                # ... a factory object from which the undefined members were deleted and the others assigned in any order
+                objp = c_raw.factory.create("{%s}f" % wsdlkit.TNS)
+                for nme, v in items:
+                    if v is None:
+                        if nme in objp:
+                            delattr(objp, nme)
+                for nme, v in part:
+                    if nme in objp:
+                        delattr(objp, nme)
+                    setattr(objp, nme, v)
+                if with_attr:
+                    objp._id = None
+                env4p = wsdlkit.envelope_bytes(c_raw.service.f(objp))
+                if defined_members(env4p) != defined_members(real[1]):
+                    ctx.fail("factory object with unwrap=False sends a different request",
+                             dict(inp, assigned_in_order=[k_ for k_, _ in part]), env4p.decode("utf-8"), real[1].decode("utf-8"))
                 obj = c_raw.factory.create("{%s}f" % wsdlkit.TNS)
                 for nme, v in zip(names, full):
                     setattr(obj, nme, v)
